@@ -809,6 +809,9 @@ func findReferenceTrak(initSeg *InitSegment) *TrakBox {
 	return initSeg.Moov.Traks[0]
 }
 
+// maxSidxReferencedSize is the biggest value of the 31-bit referenced_size field of a sidx reference.
+const maxSidxReferencedSize = 0x7fffffff
+
 type segData struct {
 	startPos         uint64
 	presentationTime uint64
@@ -847,12 +850,17 @@ func findSegmentData(segs []*MediaSegment, refTrak *TrakBox, trex *TrexBox) ([]s
 				}
 			}
 		}
+		segSize := seg.Size()
+		if segSize > maxSidxReferencedSize {
+			return nil, fmt.Errorf("segment %d has size %d, but a sidx reference can hold at most %d",
+				len(segDatas)+1, segSize, maxSidxReferencedSize)
+		}
 		sd := segData{
 			startPos:         seg.StartPos,
 			presentationTime: uint64(int64(baseTime) + firstCompositionTimeOffest),
 			baseDecodeTime:   baseTime,
 			dur:              dur,
-			size:             uint32(seg.Size()),
+			size:             uint32(segSize),
 		}
 		segDatas = append(segDatas, sd)
 	}
